@@ -3,7 +3,8 @@
     proved in [Rec/CrashProofs.v] and followed by [Print Assumptions].
 
     Vocabulary ([Rec/Crash.v]): [C] is a committed record ([good]: a chain, every container
-    committed and untampered, manifests in place); [rs] a history of rounds
+    committed and untampered, manifests in place) or no record at all ([good0]: [C = []];
+    the first round then creates the BASE container); [rs] a history of rounds
     [create_patch; writes; commit_patch] of [IH5Record] ([mfm = false]) or [IH5MFRecord]
     ([mfm = true]); [expand mfm C rs] its file-system micro-steps in program order;
     [crash_state mfm C rs n] the directory after the first [n] micro-steps (every torn
@@ -20,25 +21,36 @@ Import ListNotations.
 (** After any prefix of the micro-steps the committed containers (user block, payload
     digest, sidecar) are what they were. *)
 Theorem C11_crash_frame : forall mfm C rs n,
-  good mfm C -> hist_ok mfm C rs ->
+  good0 mfm C -> hist_ok mfm C rs ->
   firstn (List.length (committed_at mfm C rs n)) (crash_state mfm C rs n)
   = entries (committed_at mfm C rs n).
 Proof. exact crash_frame. Qed.
 Print Assumptions C11_crash_frame.
 
-(** On their own they open, as the last committed chain. *)
+(** On their own they open, as the last committed chain (when anything is committed: while
+    the base container is being created there is no committed state). *)
 Theorem C11_committed_opens : forall mfm C rs n,
-  good mfm C -> hist_ok mfm C rs ->
+  good0 mfm C -> hist_ok mfm C rs -> committed_at mfm C rs n <> [] ->
   open_dir mfm (firstn (List.length (committed_at mfm C rs n)) (crash_state mfm C rs n))
   = Some (committed_at mfm C rs n).
 Proof. exact crash_committed_opens. Qed.
 Print Assumptions C11_committed_opens.
 
+(** ... in particular for every patching history of an existing record. *)
+Theorem C11_committed_opens_patching : forall mfm C rs n,
+  good mfm C -> hist_ok mfm C rs ->
+  open_dir mfm (firstn (List.length (committed_at mfm C rs n)) (crash_state mfm C rs n))
+  = Some (committed_at mfm C rs n).
+Proof. exact crash_committed_opens_good. Qed.
+Print Assumptions C11_committed_opens_patching.
+
 (** The whole set: refused; or accepted as committed containers + one more whose user
     block says "uncommitted"; or the last committed state; or the committed state the
-    round in progress produces. *)
+    round in progress produces.  With [C = []] this covers the creation of the base
+    container: [K = []] until the first commit is complete, so the outcomes are refused /
+    absent, an uncommitted base, the committed base. *)
 Theorem C11_trichotomy : forall mfm C rs n,
-  good mfm C -> hist_ok mfm C rs ->
+  good0 mfm C -> hist_ok mfm C rs ->
   let K := committed_at mfm C rs n in
   let s := crash_state mfm C rs n in
   open_dir mfm s = None \/
@@ -50,7 +62,7 @@ Print Assumptions C11_trichotomy.
 
 (** Never accepted as committed with a state that was not written. *)
 Theorem C11_no_phantom : forall mfm C rs n c,
-  good mfm C -> hist_ok mfm C rs ->
+  good0 mfm C -> hist_ok mfm C rs ->
   open_dir mfm (crash_state mfm C rs n) = Some c -> fhash (lastf c) <> None ->
   c = committed_at mfm C rs n \/ c = next_committed_at mfm C rs n.
 Proof. exact crash_no_phantom. Qed.
@@ -60,12 +72,27 @@ Print Assumptions C11_no_phantom.
     those are coherent on their own — by C04's [prefix_ok] (dropping the newest containers
     is not a fault). *)
 Theorem C11_committed_coherent : forall mfm C rs n c,
-  good mfm C -> hist_ok mfm C rs ->
+  good0 mfm C -> hist_ok mfm C rs -> committed_at mfm C rs n <> [] ->
   open_dir mfm (crash_state mfm C rs n) = Some c ->
   exists drop, Permutation c (committed_at mfm C rs n ++ drop) /\
                coherent mfm false (committed_at mfm C rs n).
 Proof. exact crash_committed_coherent. Qed.
 Print Assumptions C11_committed_coherent.
+
+(** Reader class different from the writer class ([mfr]: who opens; [mfw]: who wrote),
+    for records both classes accept: same outcomes, the fully committed new state being
+    recognised up to the sidecar files (a plain reader does not look at them: it accepts the
+    new container as soon as its user block is complete, before the manifest exists). *)
+Theorem C11_trichotomy_cross : forall mfr mfw C rs n,
+  good0 true C -> hist_ok mfw C rs ->
+  let K := committed_at mfw C rs n in
+  let s := crash_state mfw C rs n in
+  open_dir mfr s = None \/
+  (exists f, open_dir mfr s = Some (K ++ [f]) /\ fhash f = None) \/
+  open_dir mfr s = Some K \/
+  (exists c, open_dir mfr s = Some c /\ map core c = map core (next_committed_at mfw C rs n)).
+Proof. exact crash_trichotomy_x. Qed.
+Print Assumptions C11_trichotomy_cross.
 
 (** A round that runs to its end leaves exactly the committed new state. *)
 Theorem C11_round_complete : forall mfm C r,
@@ -200,6 +227,53 @@ Theorem C11_round_tears_from_bytes : forall mfm C r pre hsh rest m d sk t M load
 Proof. exact round_tears_from_bytes. Qed.
 Print Assumptions C11_round_tears_from_bytes.
 
+(** *** The encoder: the side conditions are properties of the text the code writes
+
+    [encode_ub] prints a user block the way [IH5UserBlock.json()] does (the check compares
+    it byte for byte with every real block it meets).  For well-formed field texts (UUIDs
+    and hashsums without quote, backslash, NUL, newline) every strict prefix of the text
+    fails the necessary condition, and the common prefix of the two blocks of a commit ends
+    at depth 1 just after a colon. *)
+Theorem C11_encode_tight : forall u h e,
+  wf_head u -> wf_opt h -> wf_ext e -> tightb (encode_ub u h e) = true.
+Proof. exact encode_tight. Qed.
+Print Assumptions C11_encode_tight.
+
+Theorem C11_enc_pre_state : forall u, wf_head u ->
+  scan st0 (enc_pre u) = Some (MkS 1 false false false KColon false).
+Proof. exact enc_pre_state. Qed.
+Print Assumptions C11_enc_pre_state.
+
+(** Hence the full classification of the torn commit write for the blocks [encode_ub]
+    produces, with no premise about the texts left: well-formed fields, a hashsum of at
+    least 19 characters (["sha256:" + 64 hex] has 71), the new text fits the block. *)
+Theorem C11_commit_torn_classes_enc : forall u h e m (loads : bytes -> option ublock),
+  wf_head u -> forallb plainb h = true -> 19 <= List.length h -> wf_ext e ->
+  let ot := encode_ub u None None in
+  let nt := encode_ub u (Some h) e in
+  let old := head1024 ++ ot ++ repeat nul m in
+  let new := head1024 ++ nt ++ [nul] in
+  List.length nt < List.length ot + m -> List.length nt < 1011 ->
+  (forall t x, loads t = Some x -> json_nec t = true) ->
+  forall k u1, loads nt = Some u1 ->
+  (k <= 13 + List.length (enc_pre u) ->
+   parse_block loads (torn k old new) = parse_block loads old) /\
+  (13 + List.length (enc_pre u) < k -> k < 13 + List.length nt ->
+   parse_block loads (torn k old new) = None) /\
+  (13 + List.length nt <= k -> parse_block loads (torn k old new) = Some u1).
+Proof. exact commit_torn_classes_enc. Qed.
+Print Assumptions C11_commit_torn_classes_enc.
+
+Theorem C11_create_torn_enc : forall u M (loads : bytes -> option ublock),
+  wf_head u ->
+  let t := encode_ub u None None in
+  List.length t < 1011 -> 13 + List.length t < M ->
+  (forall x y, loads x = Some y -> json_nec x = true) ->
+  forall u0, loads t = Some u0 ->
+  tears_ok None u0 (tears_of (parse_block loads) (z_old M) (z_new t)).
+Proof. exact create_tears_enc. Qed.
+Print Assumptions C11_create_torn_enc.
+
 (** The executable classification the runner applies to real blocks is sound for any
     loader that respects the necessary condition (for ANY pair of blocks, no shape
     assumed); [TUnknown] makes no claim. *)
@@ -222,10 +296,10 @@ Local Open Scope N_scope.
 
 (** A committed base (with manifest) and one round; plain and manifest-aware. *)
 Definition xb := MkFile (MkUb 1 0 10 None (Some 100) (Some (MkExt false 70 80))) 100 (Some (70, 80)).
-Definition xr (u0 u1 : ublock) := MkRound 11 50 [None; None] [51; 52] 53 [Some u0; None; Some u1] 71 81 [(0, 90)].
-Definition xu0 := round_u0 [xb] (MkRound 11 50 [] [] 53 [] 71 81 []).
-Definition xr_plain := xr xu0 (round_u1 false [xb] (MkRound 11 50 [] [] 53 [] 71 81 [])).
-Definition xr_mf := xr xu0 (round_u1 true [xb] (MkRound 11 50 [] [] 53 [] 71 81 [])).
+Definition xr (u0 u1 : ublock) := MkRound 1 11 50 [None; None] [51; 52] 53 [Some u0; None; Some u1] 71 81 [(0, 90)].
+Definition xu0 := round_u0 [xb] (MkRound 1 11 50 [] [] 53 [] 71 81 []).
+Definition xr_plain := xr xu0 (round_u1 false [xb] (MkRound 1 11 50 [] [] 53 [] 71 81 [])).
+Definition xr_mf := xr xu0 (round_u1 true [xb] (MkRound 1 11 50 [] [] 53 [] 71 81 [])).
 
 Definition classes (mfm : bool) (r : round) : list (option (nat * bool)) :=
   map (fun n => match open_dir mfm (crash_state mfm [xb] [r] n) with
@@ -254,8 +328,49 @@ Example C11_nonvacuous_mf :
    Some (2, true)]%nat.
 Proof. vm_compute. reflexivity. Qed.
 
+(** Base creation: nothing committed, a base round (record 1, container 10) of the
+    manifest-aware class, then a patch round. *)
+Definition xbase0 := MkRound 1 10 50 [] [] 60 [] 70 80 [].
+Definition xbase := MkRound 1 10 50 [None] [55] 60
+  [Some (round_u0 [] xbase0); None; Some (round_u1 true [] xbase0)] 70 80 [(0, 91)].
+Definition xbase_plain := MkRound 1 10 50 [None] [55] 60
+  [Some (round_u0 [] xbase0); None; Some (round_u1 false [] xbase0)] 70 80 [].
+Definition xC1 := [final_file true [] xbase].
+Definition xr2_0 := MkRound 1 11 50 [] [] 53 [] 71 81 [].
+Definition xr_mf2 := MkRound 1 11 50 [None] [51] 53
+  [Some (round_u0 xC1 xr2_0); Some (round_u1 true xC1 xr2_0)] 71 81 [].
+
+Definition classes0 (mfr mfw : bool) (rs : list round) : list (option (nat * bool)) :=
+  map (fun n => match open_dir mfr (crash_state mfw [] rs n) with
+                | None => None
+                | Some c => Some (List.length c, is_some (fhash (lastf c)))
+                end) (seq 0 (S (List.length (expand mfw [] rs)))).
+
+Example C11_nonvacuous_base :
+  classes0 true true [xbase; xr_mf2] =
+  [None;                                  (* no record *)
+   None; None;                            (* file created, zeroed / torn first block *)
+   Some (1, false); Some (1, false); Some (1, false);   (* uncommitted base; write; close *)
+   Some (1, false); None; None; None; None;   (* torn commit block; block done, manifest missing / partial *)
+   Some (1, true);                        (* committed base *)
+   None; None; Some (2, false); Some (2, false); Some (2, false);
+   Some (2, false); None; None; Some (2, true)]%nat
+  /\ classes0 false false [xbase_plain] =
+  [None; None; None; Some (1, false); Some (1, false); Some (1, false);
+   Some (1, false); None; Some (1, true); Some (1, true)]%nat.
+Proof. vm_compute. split; reflexivity. Qed.
+
+(** A plain reader on what the manifest-aware writer leaves: the new container counts as
+    committed as soon as its user block is complete. *)
+Example C11_nonvacuous_cross :
+  classes0 false true [xbase] =
+  [None; None; None; Some (1, false); Some (1, false); Some (1, false);
+   Some (1, false); None; Some (1, true); Some (1, true); Some (1, true); Some (1, true)]%nat.
+Proof. vm_compute. reflexivity. Qed.
+
 Example C11_nonvacuous_hyps :
-  good false [xb] /\ good true [xb] /\ hist_ok false [xb] [xr_plain] /\ hist_ok true [xb] [xr_mf].
+  good false [xb] /\ good true [xb] /\ hist_ok false [xb] [xr_plain] /\ hist_ok true [xb] [xr_mf] /\
+  good0 true [] /\ hist_ok true [] [xbase; xr_mf2] /\ hist_ok false [] [xbase_plain].
 Proof.
   assert (G : forall mfm, good mfm [xb]).
   { intros mfm. split; [|split].
@@ -263,9 +378,11 @@ Proof.
     - repeat constructor.
     - intros _. constructor; [|constructor]. intros e [= <-]. exists 70. reflexivity. }
   split; [apply G|]. split; [apply G|].
-  split; (split; [|exact I]); (split; [intros [H|[]]; discriminate|]);
-    (split; [repeat constructor; auto|]); (split; [repeat constructor; auto|]);
-    repeat constructor; discriminate.
+  split; [split; [round_ok_tac | exact I]|].
+  split; [split; [round_ok_tac | exact I]|].
+  split; [left; reflexivity|].
+  split; [split; [round_ok_tac | split; [round_ok_tac | exact I]]|].
+  split; [round_ok_tac | exact I].
 Qed.
 
 (** A real pair of blocks (record of the probe in DESIGN.md): old up to and including byte
@@ -274,6 +391,8 @@ Local Open Scope string_scope.
 Definition x_pre : bytes := B "{""record_uuid"": ""bb71730e-bde1-11f1-bfe2-02fc00000001"", ""patch_index"": 1, ""patch_uuid"": ""cc71730e-bde1-11f1-bfe2-02fc00000001"", ""prev_patch"": ""bb71730e-bde1-11f1-bfe2-02fc00000001"", ""hdf5_hashsum"": ".
 Definition x_hsh : bytes := B "sha256:13a2bb8ea295947e24ac755b3af12ba94974b508ce3d46fa5ce0e850f55f83c8".
 Definition x_rest : bytes := B """, ""ub_exts"": {}}".
+Definition x_head := MkHead (B "bb71730e-bde1-11f1-bfe2-02fc00000001") 1
+  (B "cc71730e-bde1-11f1-bfe2-02fc00000001") (Some (B "bb71730e-bde1-11f1-bfe2-02fc00000001")).
 Definition x_old := c_old x_pre 793.
 Definition x_new := c_new x_pre x_hsh x_rest.
 
@@ -294,5 +413,11 @@ Example C11_nonvacuous_bytes :
   boundaries x_old x_new = [(0, TOld); (212, TBad); (300, TNew)]%nat /\
   tightb (c_nt x_pre x_hsh x_rest) = true /\
   scan st0 x_pre = Some (MkS 1 false false false KColon false) /\
-  forallb plainb x_hsh = true.
+  forallb plainb x_hsh = true /\
+  enc_pre x_head = x_pre /\
+  (head1024 ++ encode_ub x_head None None ++ repeat nul 793)%list = x_old /\
+  (head1024 ++ encode_ub x_head (Some x_hsh) None ++ [nul])%list = x_new /\
+  string_of_list_ascii
+    (encode_ub (MkHead (B "r") 0 (B "p") None) (Some (B "h")) (Some (false, B "m", B "s"))) =
+  "{""record_uuid"": ""r"", ""patch_index"": 0, ""patch_uuid"": ""p"", ""prev_patch"": null, ""hdf5_hashsum"": ""h"", ""ub_exts"": {""ih5mf_v01"": {""is_stub_container"": false, ""manifest_uuid"": ""m"", ""manifest_hashsum"": ""s""}}}".
 Proof. vm_compute. repeat split. Qed.
